@@ -5,8 +5,12 @@ SPEC = {
     "tests": [
         {"name": "TestHTTPSamples", "quick": 320, "thorough": 24000, "shards_quick": 8, "shards_thorough": 16, "timeout": 3000},
         {"name": "TestGRPCCodes", "quick": 48, "thorough": 3200, "shards_quick": 4, "shards_thorough": 16, "timeout": 3000},
+        # one process at a time is enough: each case already runs 2-16 goroutines flat out
+        {"name": "TestIDsUnique", "quick": 60, "thorough": 3000, "shards_quick": 2, "shards_thorough": 4, "timeout": 3000},
     ],
-    "rule": ("TestHTTPSamples: rapid-generated ammo (uri / http-json / raw; 1-8 entries with 0-5 path elements, tagged or not) x scripted "
+    "rule": ("TestIDsUnique: a real uri provider (streaming or preloaded) with limit 2000 / 20000 / 60000 is drained by 2-16 goroutines "
+             "calling Acquire/Release as fast as they can (where the ids are issued); every id must occur once; non-trivial = >= 4 "
+             "consumers and >= 20000 ammo. TestHTTPSamples: rapid-generated ammo (uri / http-json / raw; 1-8 entries with 0-5 path elements, tagged or not) x scripted "
              "target answers (any status 200-599; connection reset, response-header timeout, body shorter than Content-Length; target "
              "refusing connections) x auto-tag {enabled, uri-elements 1-3, no-tag-only} x 1-8 instances x 1-2 passes; real http gun, "
              "real phout aggregator with ids, pool built by config.DecodeAndValidate; the multiset of (tag, proto code, net code == 0) "
